@@ -18,6 +18,10 @@ RULE = (
     "k-th set cell bit satellite-major, RINEX codes from the pinned table, N/A for undefined IDs. "
     "distinct = blake2b(identity, masks, option); non-trivial = at least one satellite and one signal bit set"
 )
+RULE += (
+    ' Also: the same masks in every constellation back to back and transposed shapes with the same'
+    ' cell-mask value; payloads as bytearray / subclass / memoryview.'
+)
 ASSUMPTIONS = [
     "pinned tables: RTCM 10403.3 (2016); IDs defined only by later amendments (BeiDou 38-63 / B1C,B2a,B2b signals, "
     "NavIC 8-14 / S-band, GLONASS CDMA) are accepted either as the amendment's code or as N/A",
